@@ -6,6 +6,7 @@
    non-termination have no derivation.  Independent of ppci: no IR, no blocks.
    * assignment / return convert the value to the type of the target: same type, byte -> int
      (value kept), int -> byte (implicit, modulo 256: what the C3 type checker accepts today);
+   * x o= e (o one of + - * & |): e converted to the type of x, then x := x o e in that type;
    * if / while / for(init; cond; step) as in C (C3 has no break/continue statement);
    * switch (e) { case z: s ... default: s }: e is evaluated once; the first case whose label
      equals the value runs, else default; no fall-through. *)
@@ -22,7 +23,8 @@ Inductive cstmt :=
   | SWhile (c : cexpr) (b : cstmt)
   | SFor (init : cstmt) (c : cexpr) (step body : cstmt)
   | SSwitch (e : cexpr) (cases : list (Z * cstmt)) (dflt : cstmt)
-  | SRet (e : cexpr).
+  | SRet (e : cexpr)
+  | SAssignOp (x : nat) (t : cty) (o : cbin) (e : cexpr).      (* x o= e, for o in + - * & | *)
 
 Inductive cout := ONormal (env : list Z) | OReturn (v : Z).
 
@@ -74,4 +76,9 @@ Inductive cexec (w : Z) (rt : cty) : cstmt -> list Z -> cout -> Prop :=
       cexec w rt (select v cases dflt) env o -> cexec w rt (SSwitch e cases dflt) env o
   | X_ret env e te v v' :
       typeof e = Some te -> eval w env e = Some v -> conv w te rt v = Some v' ->
-      cexec w rt (SRet e) env (OReturn v').
+      cexec w rt (SRet e) env (OReturn v')
+  (* x o= e : e is converted to the type of x, the operation is done in that type *)
+  | X_assign_op env x t o e te v v' xv r env' :
+      numeric t = true -> typeof e = Some te -> eval w env e = Some v -> conv w te t v = Some v' ->
+      nth_error env x = Some xv -> arith (bits_of w t) (signed_of t) o xv v' = Some r ->
+      set_var x r env = Some env' -> cexec w rt (SAssignOp x t o e) env (ONormal env').
